@@ -56,8 +56,18 @@ def model_frozenset(it=()):
 
     def sym(x):
         return isinstance(x, core.SymBool) or (isinstance(x, tuple) and any(isinstance(y, core.SymBool) for y in x))
-    if not items or not any(sym(x) for x in items):
+    def deep(x):
+        return tuple(deep(y) for y in x) if isinstance(x, tuple) else (bool(x) if isinstance(x, core.SymBool) else x)
+
+    if not items or not any(sym(x) or isinstance(x, tuple) and any(isinstance(y, tuple) for y in x) for x in items):
+        if any(isinstance(x, tuple) and any(isinstance(z, core.SymBool) for y in x if isinstance(y, tuple) for z in y)
+               for x in items):
+            return real_frozenset(deep(x) for x in items)
         return real_frozenset(items)
+    if not all(isinstance(x, (bool, core.SymBool)) or (isinstance(x, tuple) and len(x) == 2 and all(
+            isinstance(y, (bool, core.SymBool)) for y in x)) for x in items):
+        # not a set of truth values / truth-value pairs (e.g. whole columns used as a memo key): concretise (forks)
+        return real_frozenset(deep(x) for x in items)
     occ = {}
     if isinstance(items[0], tuple):
         for a, b in items:
